@@ -24,7 +24,9 @@ PROP = {
                   "multi-clause sums only up to n ulps as the property words it; on the implementation every explanation node is checked against the stated "
                   "function of its details in f32 (bit-exact for products/quotients, n ulps for sums). Known findings: F40 (TopDocs scores a top-level DisjunctionMaxQuery of term scorers as the plain "
                   "sum: block_wand ignores the combiner; witness C12_dismax_topdocs_refuted, C12_sum_is_not_dismax) and F41 (explain of a boosted clause multiplies the "
-                  "boost last, 1-ulp differences; witness C12_boost_explain_rounding_refuted).",
+                  "boost last, 1-ulp differences; witness C12_boost_explain_rounding_refuted) and F42 (phrase / const / boolean explain seek a fresh scorer without the "
+                  "doc() > target guard of TermWeight::explain: DocSet contract breach, a panic in debug builds; C12_guarded_explain_respects_seek_contract, "
+                  "C12_unguarded_explain_backward_seek_refuted; observed in release through a transparent probe scorer).",
     "level_note": "Trusted: Coq kernel + vm_compute; pin.py (K1, B, max_score arguments, field-norm table, cache length regenerated from /repo); the harness "
                   "(corpus generator, its own tokenisation-free corpus model, JSON walk of explanations). The rational theorems are closed under the global context "
                   "(no axioms: BM25.v / Explain.v import neither Flocq nor Reals). C12_float_cache_is_function, C12_dismax_topdocs_refuted and "
@@ -38,6 +40,8 @@ PROP = {
             "Corpora: 1-700 documents, field lengths at/around every reachable quantisation boundary, 1-6 segments, one third with deletes; "
             "queries: term, phrase, boost, const-score, boolean must/should/must_not mixes, disjunction-max with tie breaker, depth <= 3; "
             "Bm25Weight is driven directly over all 256 field-norm ids; "
+            "directed conjunctions of a composite clause (required/optional, union, dis-max, boosted, phrase- or const-optional) with a strictly rarer clause, both orders "
+            "(composite scorers scored after seek_danger); probe-wrapped copies of every query on a third of the small corpora (explain must not seek backwards); "
             "one segment of ~9000 small documents per run (dis-max / boolean unions whose matches lie in every 4096-document window of the union scorers, "
             "each document checked through the non-pruning collector, explain and the model); "
             "corpora with 2-3 text fields of very different length distributions and conjunctions of Must term clauses across fields "
